@@ -589,7 +589,7 @@ def check_operands(acc, opname, method, specs, objs, mini, base_sig):
             acc.violation(sig, {"operation": opname, "operand": spec_str(s), "after": render(got), "why": bad[1]}, mini)
 
 
-def np_clause(opname, sa, sb, what):
+def np_clause(opname, sa, sb, what, how=None):
     """Cause-specific clause names for the positional raw-array handling in np_compared_with."""
     if opname not in ("npmax", "npmin") or sa[0] != "h" or sb[0] != "h":
         return None
@@ -601,10 +601,12 @@ def np_clause(opname, sa, sb, what):
     if what == "raised" and len(sa[1]) != len(sb[1]):
         return "np_compared_with-length-mismatch-raises"
     if what == "mismatch":
+        if how == "result-index":                  # the result does not live on the union of the two indexes
+            return "np_compared_with-index-positional"
+        if rel["units"] == "same-dim":             # right hours, wrong numbers, operands in different units
+            return "np_compared_with-unit-mismatch"
         if rel["index"] != "same":
             return "np_compared_with-index-positional"
-        if rel["units"] == "same-dim":
-            return "np_compared_with-unit-mismatch"
     return None
 
 
@@ -675,7 +677,7 @@ def judge(acc, opname, method, recv, ref, status, res, exc, sa, sb, mini, sample
             if bad is None:
                 oc = "value-agreed"
             else:
-                clause = (np_clause(opname, sa, sb, "mismatch") if bad[0] in ("value-mismatch", "result-index") else None) or bad[0]
+                clause = (np_clause(opname, sa, sb, "mismatch", bad[0]) if bad[0] in ("value-mismatch", "result-index") else None) or bad[0]
                 sig = {"clause": clause} if clause.startswith("np_compared_with-") else dict(base, clause=clause, **rel)
                 acc.violation(sig, dict(detail, why=bad[1]), mini)
                 oc = "VIOLATION"
